@@ -21,7 +21,8 @@ Kind(D, pt, fmt) ==
                       [] OTHER -> "RAW")
     [] OTHER -> "RAW"
 
-DecRAW(b) == IF Len(b) < 4 \/ HVer(b) # 2 THEN Rej ELSE Ok([k |-> "RAW", bytes |-> b])
+\* RawPacket carries any frame verbatim; what its own decoder does with a bad header is not the subject of a property
+DecRAW(b) == IF Len(b) < 4 \/ HVer(b) # 2 THEN NA ELSE Ok([k |-> "RAW", bytes |-> b])
 
 \* the kind's own decoder, given exactly the octets b
 DecOwn(D, k, b) ==
